@@ -152,6 +152,8 @@ pub struct Program {
     pub base: usize,
     pub shape: &'static str,
     pub txns: Vec<Txn>,
+    /// shape programs (S2) run under exactly this page size; 0 = not a shape program
+    pub page: usize,
 }
 
 impl Program {
@@ -159,7 +161,11 @@ impl Program {
         let mut s = String::new();
         let kt = match self.kt { KType::Bytes => "bytes", KType::U64 => "u64", KType::Str => "str" };
         let vt = match self.vt { VType::Bytes => "bytes", VType::U64 => "u64" };
-        writeln!(s, "C {} {} {}", self.id, kt, vt).unwrap();
+        if self.page != 0 {
+            writeln!(s, "C {} {} {} {}", self.id, kt, vt, self.page).unwrap();
+        } else {
+            writeln!(s, "C {} {} {}", self.id, kt, vt).unwrap();
+        }
         for t in &self.txns {
             writeln!(s, "B").unwrap();
             for op in &t.ops { writeln!(s, "{}", op.text()).unwrap(); }
@@ -413,7 +419,7 @@ pub fn gen_program(r: &mut Rng, id: u64, thorough: bool) -> Program {
         ops.push(Op::Range(BoundS::U, BoundS::U, if r.chance(1, 2) { "d".into() } else { "D".into() }));
         txns.push(Txn { ops, end: if r.chance(1, 4) { End::Abort } else { End::Commit }, reopen: r.chance(1, 5) });
     }
-    Program { id, kt, vt, base, shape, txns }
+    Program { id, kt, vt, base, shape, txns, page: 0 }
 }
 
 // ------------------------------------------------------------------------------------------------ parsing (replay / shrinking)
@@ -470,7 +476,8 @@ pub fn parse_programs(text: &str) -> Vec<Program> {
             "C" => {
                 let kt = match t[2] { "u64" => KType::U64, "str" => KType::Str, _ => KType::Bytes };
                 let vt = match t[3] { "u64" => VType::U64, _ => VType::Bytes };
-                out.push(Program { id: t[1].parse().unwrap(), kt, vt, base: 512, shape: "file", txns: vec![] });
+                let page = t.get(4).map(|x| x.parse().unwrap()).unwrap_or(0);
+                out.push(Program { id: t[1].parse().unwrap(), kt, vt, base: 512, shape: "file", txns: vec![], page });
             }
             "B" => cur = Some(Txn { ops: vec![], end: End::Commit, reopen: false }),
             "K" | "A" => {
@@ -483,4 +490,161 @@ pub fn parse_programs(text: &str) -> Vec<Program> {
         }
     }
     out
+}
+
+// ------------------------------------------------------------------------------------------------ shape programs (S2)
+// Programs whose tree the check compares NODE BY NODE with the shape model (coq/Btree/Shape.v) after
+// every operation.  `level` selects the operation kinds: 1 = the operations of Mutator.v (insert,
+// remove, pop_first, pop_last), 2 = additionally the writers modelled in Guard.v / Retain.v / Extract.v.
+
+/// canonical text of a tree shape, shared with ocaml/c04_driver.ml (print_shape):
+///   S <length> <node> <node> ...       nodes in pre-order, `S 0 -` for the empty tree
+///   leaf   L<depth><d|c><allocated>/<used>:<key>=<value length>,...
+///   branch B<depth><d|c><allocated>/<used>:<separator>,...
+/// d = uncommitted (dirty) page, c = committed page; keys through `canon`.
+pub fn shape_line(s: &redb::verif::VShape) -> String {
+    if s.nodes.is_empty() {
+        return format!("S {} -", s.length);
+    }
+    let mut out = format!("S {}", s.length);
+    for n in &s.nodes {
+        let items: Vec<String> = if n.leaf {
+            n.keys.iter().zip(n.value_lens.iter()).map(|(k, l)| format!("{}={}", canon(k), l)).collect()
+        } else {
+            n.keys.iter().map(|k| canon(k)).collect()
+        };
+        write!(out, " {}{}{}{}/{}:{}", if n.leaf { 'L' } else { 'B' }, n.depth, if n.uncommitted { 'd' } else { 'c' },
+               n.allocated_len, n.used_len, items.join(",")).unwrap();
+    }
+    out
+}
+
+fn shape_value(r: &mut Rng, vt: VType, page: usize, big: bool) -> Vec<u8> {
+    match vt {
+        VType::U64 => gen_value(r, vt, page, false),
+        VType::Bytes => {
+            // lengths around every threshold of the mutator: a third / half / a whole page, several pages
+            let classes: &[usize] = if big {
+                &[0, 1, 8, 30, page / 6, page / 4, page / 3 - 12, page / 3 - 4, page / 3 + 4, page / 2 - 12, page / 2 - 4, page / 2 + 4,
+                  page - 40, page - 24, page - 12, page - 4, page + 8, 2 * page - 20, 2 * page + 8, 3 * page + 5]
+            } else {
+                &[0, 1, 3, 8, 8, 20, 30, 30, 60, 100, page / 8, page / 6, page / 4, page / 3 - 12, page / 3 - 4, page / 3 + 4, page / 2 - 12]
+            };
+            let mut l = *r.pick(classes);
+            if r.chance(1, 3) { l = (l + r.below(17) as usize).saturating_sub(8); }
+            let seed = r.next_u64() as u8;
+            pattern(l, seed)
+        }
+    }
+}
+
+fn shuffled(r: &mut Rng, v: &[Vec<u8>]) -> Vec<Vec<u8>> {
+    let mut ks = v.to_vec();
+    for i in (1..ks.len()).rev() { let j = r.below(i as u64 + 1) as usize; ks.swap(i, j); }
+    ks
+}
+
+pub fn gen_shape_program(r: &mut Rng, id: u64, thorough: bool, level: u32) -> Program {
+    let (kt, vt) = match r.below(20) {
+        0..=6 => (KType::Bytes, VType::Bytes),
+        7..=12 => (KType::U64, VType::Bytes),
+        13..=14 => (KType::Str, VType::U64),
+        15..=16 => (KType::Str, VType::Bytes),
+        17 => (KType::Bytes, VType::U64),
+        _ => (KType::U64, VType::U64),
+    };
+    let page = *r.pick(&[512usize, 512, 512, 512, 512, 512, 1024, 1024, 2048, 4096]);
+    let shape = *r.pick(&["random", "random", "ascending-load", "ascending-load", "descending-load", "load-then-delete",
+                          "load-then-delete", "load-then-pop", "large-values", "fill-drain"]);
+    let big = vt == VType::Bytes && (shape == "large-values" || r.chance(1, 3));
+    let scale = page / 512;
+    let pool_n = match (vt, shape) {
+        (VType::U64, "random") => 10 + r.below(60) as usize,
+        (VType::U64, _) => (60 + r.below(if thorough { 400 } else { 200 }) as usize) * scale.min(2),
+        (_, "random") => 6 + r.below(40) as usize,
+        _ => (16 + r.below(if thorough { 160 } else { 90 }) as usize) * scale.min(2),
+    };
+    let pool = gen_key_pool(r, kt, page, pool_n);
+    let sp = sorted_pool(kt, &pool);
+    let val = |r: &mut Rng| shape_value(r, vt, page, big);
+    let mut ops: Vec<Op> = vec![];
+    match shape {
+        "ascending-load" => { for k in &sp { ops.push(Op::Insert(k.clone(), val(r))); } }
+        "descending-load" => { for k in sp.iter().rev() { ops.push(Op::Insert(k.clone(), val(r))); } }
+        "load-then-delete" | "load-then-pop" | "large-values" => { for k in &shuffled(r, &pool) { ops.push(Op::Insert(k.clone(), val(r))); } }
+        "fill-drain" => {
+            for k in &sp { ops.push(Op::Insert(k.clone(), val(r))); }
+            match r.below(3) {
+                0 => { for k in &sp { ops.push(Op::Remove(k.clone())); } }
+                1 => { for k in sp.iter().rev() { ops.push(Op::Remove(k.clone())); } }
+                _ => { for k in &shuffled(r, &pool) { ops.push(Op::Remove(k.clone())); } }
+            }
+        }
+        _ => {}
+    }
+    match shape {
+        "load-then-delete" => {
+            let keep = r.below(4) as usize;
+            for k in shuffled(r, &pool).iter().skip(keep) { ops.push(Op::Remove(k.clone())); }
+        }
+        "load-then-pop" => {
+            let first_heavy = r.below(3);
+            for _ in 0..(pool.len() + 2) {
+                ops.push(match first_heavy { 0 => Op::PopFirst, 1 => Op::PopLast, _ => if r.chance(1, 2) { Op::PopFirst } else { Op::PopLast } });
+            }
+        }
+        _ => {}
+    }
+    // random tail
+    let ntail = if shape == "random" { 20 + r.below(if thorough { 200 } else { 90 }) } else { r.below(40) } as usize;
+    for _ in 0..ntail {
+        let k = r.pick(&pool).clone();
+        let op = if level >= 2 {
+            match r.below(100) {
+                0..=34 => Op::Insert(k, val(r)),
+                35..=52 => Op::Remove(k),
+                53..=56 => Op::PopFirst,
+                57..=60 => Op::PopLast,
+                61..=72 => {
+                    let a = if r.chance(4, 5) { Some(val(r)) } else { None };
+                    let b = if a.is_some() && r.chance(1, 3) { Some(val(r)) } else { None };
+                    Op::GetMut(k, a, b)
+                }
+                73..=78 => if vt == VType::Bytes { Op::Reserve(k, val(r)) } else { Op::Insert(k, val(r)) },
+                79..=84 => match r.below(5) {
+                    0 => Op::EntryOrInsert(k, val(r)),
+                    1 => Op::EntryModify(k, val(r), val(r)),
+                    2 => Op::EntryInsert(k, val(r)),
+                    3 => Op::EntryRemove(k),
+                    _ => Op::EntryRemoveEntry(k),
+                },
+                85..=89 => { let m = *r.pick(&[2u64, 3, 5, 7]); Op::Retain(m, r.below(m + 1)) }
+                90..=94 => { let m = *r.pick(&[2u64, 3, 5, 7]); Op::RetainIn(gen_bound(r, &pool), gen_bound(r, &pool), m, r.below(m + 1)) }
+                95..=96 => { let m = *r.pick(&[2u64, 3, 5]); Op::Extract(BoundS::U, BoundS::U, m, r.below(m + 1), gen_script(r, &['x', 'c']), true) }
+                _ => { let m = *r.pick(&[2u64, 3, 5]); Op::Extract(gen_bound(r, &pool), gen_bound(r, &pool), m, r.below(m + 1), gen_script(r, &['x', 'c']), false) }
+            }
+        } else {
+            match r.below(100) {
+                0..=54 => Op::Insert(k, val(r)),
+                55..=84 => Op::Remove(k),
+                85..=91 => Op::PopFirst,
+                _ => Op::PopLast,
+            }
+        };
+        ops.push(op);
+    }
+    // transaction boundaries: short and long transactions, so that both clean (copy on write) and dirty
+    // (in place) pages are operated on; some aborted
+    let mut txns: Vec<Txn> = vec![];
+    let mut i = 0;
+    let style = r.below(4);
+    while i < ops.len() {
+        let n = match style { 0 => 1 + r.below(3), 1 => 1 + r.below(12), 2 => 5 + r.below(40), _ => 1 + r.below(80) } as usize;
+        let j = (i + n).min(ops.len());
+        txns.push(Txn { ops: ops[i..j].to_vec(), end: if r.chance(1, 9) { End::Abort } else { End::Commit }, reopen: false });
+        i = j;
+    }
+    // a final empty transaction: its opening shape shows what the last commit / abort left
+    txns.push(Txn { ops: vec![], end: End::Abort, reopen: false });
+    Program { id, kt, vt, base: page, shape, txns, page }
 }
